@@ -89,6 +89,10 @@ def run_both(drv, case):
         # the content after a FAILING append / append-over is C18's subject (partial effects), not compared here
         if lst is not None and len(lst) > k + 4 and not keep and lst[k + 2] != {"ok": True}:
             lst[k + 4] = {"after_failed_append": "-"}
+        # the same for the reference save into the fresh path B when that save is refused half-way (the model's failing save
+        # returns no file system at all; what the real one leaves behind is again C18's subject)
+        if lst is not None and len(lst) > k + 6 and lst[k + 5] != {"ok": True}:
+            lst[k + 6] = {"after_failed_write": "-"}
     return io, mo
 
 
@@ -136,7 +140,14 @@ def oracle(case, obs):
             return None
         if c in ("a", "ao") and case["old"] == "emd":
             return None   # appends into an existing tree may legitimately be refused (e.g. node path not in file)
-        return {"save_failed": sv, "mode": case["mode"], "old": case["old"]}
+        # overwrite / append-to-nothing must behave exactly like the same save into a fresh path: when THAT save is refused
+        # too (an input the writer cannot store, e.g. a rooted list item that has a sibling called `_tmp_<its name>`), and
+        # the mode has done what the property says (what a FAILING save leaves behind is not compared here: the walk of a
+        # file after a failed save is masked, see C18)
+        svB = obs[k + 5]
+        if "err" in svB and (c == "o" or not existed):
+            return None
+        return {"save_failed": sv, "mode": case["mode"], "old": case["old"], "fresh_write": svB}
     wA, svB, wB = obs[k + 4], obs[k + 5], obs[k + 6]
     if svB != {"ok": True}:
         return {"fresh_write_failed": svB}
